@@ -1753,12 +1753,12 @@ Proof. split; [|split]; vm_compute; reflexivity. Qed.
    normal form is needed ([C17_crlf_text_mode_normal_form_needed]); text events already have LF
    (soft breaks are events of their own).
 
-   The block comment after a word or number ([jsim]) follows below
-   ([C17_mid_comment_recipe_text_mode(_fm)]).  Still under [src_no_text_mode]: the extra-line edit
-   (its proof goes through an UNSHIFTED intermediate token list that is the token list of no source,
-   so the located-tape invariant has nothing to stand on there) and the trailing and padded edits
-   ([wsimb], [psim]: their event relation [fwr] and the normal form [rnorm] need a text-mode clause
-   in Proofs/EditTrailAnalysis.v as well); [C17_strip_token_run] and the lifting are ready for them. *)
+   The other edits follow below, each WITHOUT [src_no_text_mode]: the block comment after a word or
+   number ([jsim]: [C17_mid_comment_recipe_text_mode(_fm)]), the extra line
+   ([C17_extra_line_recipe_text_mode(_fm)]: the block loop followed directly along [reach]), the
+   trailing comment / trailing spaces and the padded comment ([wsimb], [psim]:
+   [C17_trailing_comment_recipe_text_mode(_fm)], [C17_padded_comment_recipe_text_mode(_fm)], with the
+   normal form [rnormN] in which the line ends of paragraph text count as blank space). *)
 From CL Require Proofs.EditTextFrame Proofs.EditTextSim Proofs.EditTextAnalysis Proofs.EditTextLex Proofs.EditTextCrlf.
 
 (* the stripped copy of a run of the document's tokens: its non-comment tokens *)
@@ -1903,3 +1903,288 @@ Proof.
   split; [vm_compute; reflexivity|]. split; [vm_compute; reflexivity|]. split; [vm_compute; reflexivity|].
   split; [reflexivity|]. split; [reflexivity|]. split; [vm_compute; reflexivity|]. vm_compute. reflexivity.
 Qed.
+
+(* ---------------------------------------------------------------- text mode: a blank or comment-only line between blocks *)
+(* Proofs/EditTextExtra.v.  The event-level proof goes through an unshifted token list that is the
+   token list of no source; here the block loop is followed directly along [reach]: up to the place
+   of the inserted line the two loops cut the SAME blocks out of the same tokens (where a block ends
+   depends on what follows only through the kind of the next token), at the place the edited side
+   skips the line, after it the tokens are the shifted ones ([ksim]).  Every block is parsed on both
+   sides from [ksim]-related LOCATED tokens, so the component sources are related by [crel].
+   Hypotheses of [C17_extra_line_recipe(_fm)] WITHOUT [src_no_text_mode]; conclusion
+   [same_parse_upto drop_cr] ([ksim] does not record the spelling of a newline token; the component
+   sources are the same strings here and the instance below is an equality). *)
+From CL Require Proofs.EditTextExtra.
+
+Theorem C17_extra_line_recipe_text_mode :
+  forall ac cfg ci_key yaml_ok find_iq unit_class x Y ystr yeqb yaml a l b ta tl tb,
+    p_strict_escape cfg = false -> Analysis.text_raw ac = false ->
+    parse_frontmatter cfg (a ++ b) = None ->
+    Forall (fun y => is_fence y = false) (lines_inclusive l) ->
+    lex_at U a 0 = Some ta -> lex_at U l 0 = Some tl -> lex_at U b (blen a) = Some tb ->
+    (ta = [] \/ exists p nl, ta = p ++ [nl] /\ kind nl = KNewline) -> blank_line tl ->
+    reach (ta ++ tb) tb ->
+    EditAnalysis.crlf_blind yaml_ok -> EditAnalysis.crlf_blind yaml ->
+    EditTextCrlf.same_parse_upto EditAnalysis.drop_cr ac U cfg ci_key yaml_ok find_iq unit_class x Y ystr yeqb yaml
+      (a ++ b) (a ++ l ++ b).
+Proof.
+  intros ac cfg. intros.
+  apply (EditTextExtra.extra_line_text_mode U cfg gen_special_breaks gen_eol_breaks ac) with (ta := ta) (tl := tl) (tb := tb); assumption.
+Qed.
+Print Assumptions C17_extra_line_recipe_text_mode.
+
+Theorem C17_extra_line_recipe_text_mode_fm :
+  forall ac cfg ci_key yaml_ok find_iq unit_class x Y ystr yeqb yaml s fm a l b ta tl tb,
+    p_strict_escape cfg = false -> Analysis.text_raw ac = false ->
+    parse_frontmatter cfg s = Some fm -> cook_text fm = a ++ b -> a ++ b <> [] ->
+    lex_at U a (cook_off fm) = Some ta -> lex_at U l 0 = Some tl -> lex_at U b (cook_off fm + blen a) = Some tb ->
+    (ta = [] \/ exists p nl, ta = p ++ [nl] /\ kind nl = KNewline) -> blank_line tl ->
+    reach (ta ++ tb) tb ->
+    EditAnalysis.crlf_blind yaml_ok -> EditAnalysis.crlf_blind yaml ->
+    EditTextCrlf.same_parse_upto EditAnalysis.drop_cr ac U cfg ci_key yaml_ok find_iq unit_class x Y ystr yeqb yaml
+      s (take_bytes s (cook_off fm) ++ a ++ l ++ b).
+Proof.
+  intros ac cfg. intros.
+  apply (EditTextExtra.extra_line_text_mode_fm U cfg gen_special_breaks gen_eol_breaks ac) with (fm := fm) (ta := ta) (tl := tl) (tb := tb); assumption.
+Qed.
+Print Assumptions C17_extra_line_recipe_text_mode_fm.
+
+(* satisfiable on a source that selects text mode: ">> [mode]: text\nAdd @sea salt{} now\n\n" | "-- c\n" | "Stir" *)
+Definition xl_a : str :=
+  [62;62;32;91;109;111;100;101;93;58;32;116;101;120;116;10] ++ [65;100;100;32;64;115;101;97;32;115;97;108;116;123;125;32;110;111;119;10;10].
+Definition xl_l : str := [45;45;32;99;10].
+Definition xl_b : str := [83;116;105;114].
+
+Example C17_extra_line_text_mode_hypotheses_satisfiable :
+  exists ta tl tb,
+    parse_frontmatter cfg_all (xl_a ++ xl_b) = None
+    /\ Forall (fun y => is_fence y = false) (lines_inclusive xl_l)
+    /\ lex_at U xl_a 0 = Some ta /\ lex_at U xl_l 0 = Some tl /\ lex_at U xl_b (blen xl_a) = Some tb
+    /\ (exists p nl, ta = p ++ [nl] /\ kind nl = KNewline) /\ blank_line tl /\ reach (ta ++ tb) tb
+    /\ EditAnalysis.src_no_text_mode_b U cfg_all (xl_a ++ xl_b) = false.
+Proof.
+  eexists. eexists. eexists. split; [vm_compute; reflexivity|].
+  split; [repeat constructor|].
+  split; [vm_compute; reflexivity|]. split; [vm_compute; reflexivity|]. split; [vm_compute; reflexivity|].
+  split; [|split; [|split]].
+  - match goal with |- exists p nl, ?l = _ /\ _ => exists (removelast l), (last l (mk KNewline [] 0)) end. split; vm_compute; reflexivity.
+  - match goal with |- blank_line ?l => exists (removelast l), (last l (mk KNewline [] 0)) end.
+    split; [vm_compute; reflexivity | split; vm_compute; reflexivity].
+  - eapply reach_step; [vm_compute; reflexivity|]. eapply reach_step; [vm_compute; reflexivity | apply reach_here].
+  - vm_compute. reflexivity.
+Qed.
+
+Example C17_extra_line_text_mode_instance :
+  forall ci_key yaml_ok find_iq unit_class,
+    ParseTotal.parse_model U cfg_all ci_key yaml_ok find_iq unit_class x_all (xl_a ++ xl_b)
+    = ParseTotal.parse_model U cfg_all ci_key yaml_ok find_iq unit_class x_all (xl_a ++ xl_l ++ xl_b).
+Proof. intros. vm_compute. reflexivity. Qed.
+
+(* ---------------------------------------------------------------- text mode: a trailing comment, trailing spaces *)
+(* Proofs/EditTextNorm.v, EditTextTrailTok.v, EditTextSolid.v, EditTextTrail.v, EditTextTrailAnalysis.v,
+   EditTextTrailDoc.v.
+
+   The event stacks of the two runs are not in step ([evw]: warnings on one side only, one more blank
+   text before an End) but component events are never skipped, so the ghost is stated on the component
+   events alone, in order; every computation that pushes no component event preserves it whatever the
+   relation between the two runs, and the step loop of Proofs/EditTrailStep.v is followed once more
+   with the ghost threaded through.  At a component attempt the remaining tokens are [wsimb true]-
+   related before and after; both consumed runs end in a token that is neither blank nor comment - a
+   closing brace, the closing parenthesis of a note, the last word of a name (unary,
+   Proofs/EditTextSolid.v) - so the relation splits along the cut: inside the runs tokens are inserted,
+   or a blank lengthened, only directly before a NEWLINE TOKEN of the run ([EditTextTrailTok.wrun]).
+
+   NORMAL FORM.  What `in_text` keeps of the two runs differs by U+0020s in front of a line end
+   ("@sea \nsalt{}" / "@sea\nsalt{}" once the comment is removed), and the copy keeps the line end:
+   [rnorm] - which squeezes U+0020 and TAB only - is too fine for a paragraph of text mode
+   ([C17_trailing_text_mode_rnorm_too_fine]).  [EditTextTrailAnalysis.rnormN]: step text as in
+   [rnorm]; PARAGRAPH text with runs of U+0020, TAB, LF and CR squeezed to one U+0020 and none at
+   either end ([EditTextNorm.norm_textN]) - what the monitor of checks/c17_edits.py judges of
+   paragraph text (it collapses [ \t\r\n]+).  Everything else is equal, and so are the metadata maps.
+   [EditTextTrailDoc.same_parse_wN] = [same_parse_w] with [rnormN] for [rnorm].
+
+   Hypotheses of [C17_trailing_comment_recipe(_fm)] WITHOUT [src_no_text_mode]. *)
+From CL Require Proofs.EditTextNorm Proofs.EditTextTrailTok Proofs.EditTextSolid Proofs.EditTextTrail
+  Proofs.EditTextTrailAnalysis Proofs.EditTextTrailDoc.
+
+(* the consumed runs of a component attempt: related inside, whatever was inserted at the cut *)
+Theorem C17_trailing_consumed_runs :
+  forall c0 t1 r1 d0 t2 r2,
+    EditTrailDefs.wsimb true ((c0 ++ [t1]) ++ r1) ((d0 ++ [t2]) ++ r2) -> EditTrailDefs.wsimb true r1 r2 ->
+    EditTextTrailTok.solid t1 = true -> EditTextTrailTok.solid t2 = true ->
+    EditTextTrailTok.wrun (c0 ++ [t1]) (d0 ++ [t2])
+    /\ EditTextNorm.Tq (EditTextTrailTok.tx (c0 ++ [t1])) (EditTextTrailTok.tx (d0 ++ [t2])).
+Proof.
+  intros c0 t1 r1 d0 t2 r2 H Hr S1 S2. pose proof (EditTextTrailTok.consumed_wrun _ _ _ _ _ _ H Hr S1 S2) as W.
+  split; [exact W | exact (proj1 (EditTextTrailTok.wrun_Tq _ _ W))].
+Qed.
+Print Assumptions C17_trailing_consumed_runs.
+
+(* ANALYSIS, trailing / padded relation, text mode included *)
+Theorem C17_analysis_wblind_text :
+  forall ci_key yaml_ok find_iq unit_class x acfg in1 in2 e1 e2,
+    EditAnalysis.crlf_blind yaml_ok -> EditTrailDoc.iq_ok x find_iq ->
+    EditTrailDefs.fwr e1 e2 -> EditTextTrailAnalysis.SK acfg in1 in2 e1 e2 ->
+    EditTextTrailDoc.orelwN
+      (Analysis.analyse ci_key yaml_ok find_iq unit_class in1 x acfg (EventBridge.abstract_events e1))
+      (Analysis.analyse ci_key yaml_ok find_iq unit_class in2 x acfg (EventBridge.abstract_events e2)).
+Proof.
+  intros ci_key yaml_ok find_iq unit_class x acfg in1 in2 e1 e2 By Hq Hf Hk.
+  pose proof (EditTextTrailAnalysis.analyse_wblind_text ci_key yaml_ok find_iq unit_class x acfg By Hq in1 in2 e1 e2 Hf Hk) as X.
+  unfold EditTextTrailDoc.orelwN.
+  destruct (Analysis.analyse ci_key yaml_ok find_iq unit_class in1 x acfg (EventBridge.abstract_events e1)) as [[r1 v1]|p1];
+    destruct (Analysis.analyse ci_key yaml_ok find_iq unit_class in2 x acfg (EventBridge.abstract_events e2)) as [[r2 v2]|p2]; exact X.
+Qed.
+Print Assumptions C17_analysis_wblind_text.
+
+Theorem C17_trailing_comment_recipe_text_mode :
+  forall ac cfg ci_key yaml_ok find_iq unit_class x Y ystr yeqb yaml a b ta tb w lc,
+    p_strict_escape cfg = false -> Analysis.text_raw ac = false ->
+    parse_frontmatter cfg (a ++ b) = None ->
+    lex_at U a 0 = Some ta -> lex_at U b (blen a) = Some tb -> lex_at U (a ++ b) 0 = Some (ta ++ tb) ->
+    last_open_ended ta = false -> EditTrailLex.line_end b -> EditTrailDoc.trailing_text w lc ->
+    EditAnalysis.crlf_blind yaml_ok -> EditAnalysis.crlf_blind yaml -> EditTrailDoc.iq_ok x find_iq ->
+    EditTextTrailDoc.same_parse_wN ac U cfg ci_key yaml_ok find_iq unit_class x Y ystr yeqb yaml (a ++ b) (a ++ (w ++ lc) ++ b).
+Proof.
+  intros ac cfg ci_key yaml_ok find_iq unit_class x Y ystr yeqb yaml a b ta tb w lc Hs Hr F1 La Lb Lab Ho Hb Ht By Bm Hq.
+  pose proof (C17_trailing_fence cfg a b w lc F1 Hb Ht) as F2.
+  apply (EditTextTrailDoc.trail_text_mode U cfg gen_special_breaks gen_eol_breaks gen_blank_ws ac) with (ta := ta) (tb := tb); assumption.
+Qed.
+Print Assumptions C17_trailing_comment_recipe_text_mode.
+
+Theorem C17_trailing_comment_recipe_text_mode_fm :
+  forall ac cfg ci_key yaml_ok find_iq unit_class x Y ystr yeqb yaml s fm a b ta tb w lc,
+    p_strict_escape cfg = false -> Analysis.text_raw ac = false ->
+    parse_frontmatter cfg s = Some fm -> cook_text fm = a ++ b -> a ++ b <> [] ->
+    lex_at U a (cook_off fm) = Some ta -> lex_at U b (cook_off fm + blen a) = Some tb ->
+    lex_at U (a ++ b) (cook_off fm) = Some (ta ++ tb) ->
+    last_open_ended ta = false -> EditTrailLex.line_end b -> EditTrailDoc.trailing_text w lc ->
+    EditAnalysis.crlf_blind yaml_ok -> EditAnalysis.crlf_blind yaml -> EditTrailDoc.iq_ok x find_iq ->
+    EditTextTrailDoc.same_parse_wN ac U cfg ci_key yaml_ok find_iq unit_class x Y ystr yeqb yaml
+      s (take_bytes s (cook_off fm) ++ a ++ (w ++ lc) ++ b).
+Proof.
+  intros ac cfg ci_key yaml_ok find_iq unit_class x Y ystr yeqb yaml s fm a b ta tb w lc Hs Hr F C Hne La Lb Lab Ho Hb Ht By Bm Hq.
+  apply (EditTextTrailDoc.trail_text_mode_fm U cfg gen_special_breaks gen_eol_breaks gen_blank_ws ac) with (fm := fm) (ta := ta) (tb := tb); assumption.
+Qed.
+Print Assumptions C17_trailing_comment_recipe_text_mode_fm.
+
+(* ">> [mode]: text\nAdd @sea" | "\nsalt{} now", ` -- c` appended to the first line of the wrapped
+   component: the two paragraphs are "Add @sea\nsalt{} now" and "Add @sea \nsalt{} now" - equal under
+   [rnormN], NOT under [rnorm] *)
+Definition tt_a : str := [62;62;32;91;109;111;100;101;93;58;32;116;101;120;116;10] ++ [65;100;100;32;64;115;101;97].
+Definition tt_b : str := [10;115;97;108;116;123;125;32;110;111;119].
+Definition tt_w : str := [32].
+Definition tt_lc : str := line_comment_text [32;99].
+
+Example C17_trailing_text_mode_hypotheses_satisfiable :
+  exists ta tb,
+    parse_frontmatter cfg_all (tt_a ++ tt_b) = None
+    /\ lex_at U tt_a 0 = Some ta /\ lex_at U tt_b (blen tt_a) = Some tb /\ lex_at U (tt_a ++ tt_b) 0 = Some (ta ++ tb)
+    /\ last_open_ended ta = false /\ EditTrailLex.line_end tt_b /\ EditTrailDoc.trailing_text tt_w tt_lc
+    /\ EditAnalysis.src_no_text_mode_b U cfg_all (tt_a ++ tt_b) = false.
+Proof.
+  eexists. eexists. split; [vm_compute; reflexivity|]. split; [vm_compute; reflexivity|]. split; [vm_compute; reflexivity|].
+  split; [vm_compute; reflexivity|]. split; [vm_compute; reflexivity|].
+  split; [right; left; eexists; reflexivity|].
+  split; [split; [reflexivity | right; eexists; split; [reflexivity | split; [reflexivity | discriminate]]]|].
+  vm_compute. reflexivity.
+Qed.
+
+Example C17_trailing_text_mode_instance :
+  forall ci_key yaml_ok unit_class,
+    EditTextTrailDoc.orelwN
+      (ParseTotal.parse_model U cfg_all ci_key yaml_ok (fun _ => None) unit_class x_all (tt_a ++ tt_b))
+      (ParseTotal.parse_model U cfg_all ci_key yaml_ok (fun _ => None) unit_class x_all (tt_a ++ (tt_w ++ tt_lc) ++ tt_b)).
+Proof. intros. vm_compute. split; reflexivity. Qed.
+
+Example C17_trailing_text_mode_rnorm_too_fine :
+  forall ci_key yaml_ok unit_class,
+    ~ EditTrailDoc.orelw
+        (ParseTotal.parse_model U cfg_all ci_key yaml_ok (fun _ => None) unit_class x_all (tt_a ++ tt_b))
+        (ParseTotal.parse_model U cfg_all ci_key yaml_ok (fun _ => None) unit_class x_all (tt_a ++ (tt_w ++ tt_lc) ++ tt_b)).
+Proof. intros ci_key yaml_ok unit_class. vm_compute. intros [H _]. discriminate H. Qed.
+
+(* ---------------------------------------------------------------- text mode: the padded block comment *)
+(* Proofs/EditTextPad.v, EditTextPadDoc.v: the same for [psim] (Proofs/EditPadStep.v followed once more with
+   the ghost).  A gap stands for ONE blank token of the left run, so it lies on one side of the cut; the
+   consumed runs are [qsim]-related ([C17_padded_consumed_runs]) and what `in_text` keeps of them differs
+   by U+0020s inserted before a U+0020 (the comment tokens of the gap are removed).
+   Hypotheses of [C17_padded_comment_recipe(_fm)] WITHOUT [src_no_text_mode]; conclusion [same_parse_wN]. *)
+From CL Require Proofs.EditTextPad Proofs.EditTextPadDoc.
+
+Theorem C17_padded_consumed_runs :
+  forall c0 t1 r1 d0 t2 r2,
+    EditPadDefs.qsim ((c0 ++ [t1]) ++ r1) ((d0 ++ [t2]) ++ r2) -> EditPadDefs.qsim r1 r2 ->
+    EditTextTrailTok.solid t1 = true -> EditTextTrailTok.solid t2 = true ->
+    EditPadDefs.qsim (c0 ++ [t1]) (d0 ++ [t2])
+    /\ EditTextNorm.Tq (EditTextTrailTok.tx (c0 ++ [t1])) (EditTextTrailTok.tx (d0 ++ [t2])).
+Proof.
+  intros c0 t1 r1 d0 t2 r2 H Hr S1 S2. pose proof (EditTextPad.consumed_qsim _ _ _ _ _ _ H Hr S1 S2) as W.
+  split; [exact W | exact (proj1 (EditTextPad.qsim_Tq _ _ W))].
+Qed.
+Print Assumptions C17_padded_consumed_runs.
+
+Theorem C17_padded_comment_recipe_text_mode :
+  forall ac cfg ci_key yaml_ok find_iq unit_class x Y ystr yeqb yaml a b c x1 x2 p wd ws tb' d y,
+    p_strict_escape cfg = false -> Analysis.text_raw ac = false ->
+    no_close c = true -> EditTrailDefs.sp32 x1 -> EditTrailDefs.sp32 x2 ->
+    parse_frontmatter cfg (a ++ b) = None -> parse_frontmatter cfg (a ++ (x1 ++ block_comment_text c ++ x2) ++ b) = None ->
+    lex_at U a 0 = Some (p ++ [wd; ws]) -> b = d :: y -> is_lex_ws U d = false -> lex_at U b (blen a) = Some tb' ->
+    is_single_word_tok (kind wd) = true -> kind ws = KWs -> mode_after MOut p = MOut ->
+    EditPadDoc.lmode_after EditPadDefs.LStart p <> EditPadDefs.LVal ->
+    (x1 ++ x2 = [] \/ exists u, tstr ws = u ++ [32]) ->
+    EditAnalysis.crlf_blind yaml_ok -> EditAnalysis.crlf_blind yaml -> EditTrailDoc.iq_ok x find_iq ->
+    EditTextTrailDoc.same_parse_wN ac U cfg ci_key yaml_ok find_iq unit_class x Y ystr yeqb yaml
+      (a ++ b) (a ++ (x1 ++ block_comment_text c ++ x2) ++ b).
+Proof.
+  intros ac cfg. intros.
+  apply (EditTextPadDoc.pad_text_mode U cfg gen_special_breaks gen_eol_breaks gen_blank_ws ac) with (p := p) (wd := wd) (ws := ws) (tb' := tb') (d := d) (y := y); assumption.
+Qed.
+Print Assumptions C17_padded_comment_recipe_text_mode.
+
+Theorem C17_padded_comment_recipe_text_mode_fm :
+  forall ac cfg ci_key yaml_ok find_iq unit_class x Y ystr yeqb yaml s fm a b c x1 x2 p wd ws tb' d y,
+    p_strict_escape cfg = false -> Analysis.text_raw ac = false ->
+    no_close c = true -> EditTrailDefs.sp32 x1 -> EditTrailDefs.sp32 x2 ->
+    parse_frontmatter cfg s = Some fm -> cook_text fm = a ++ b ->
+    lex_at U a (cook_off fm) = Some (p ++ [wd; ws]) -> b = d :: y -> is_lex_ws U d = false ->
+    lex_at U b (cook_off fm + blen a) = Some tb' ->
+    is_single_word_tok (kind wd) = true -> kind ws = KWs -> mode_after MOut p = MOut ->
+    EditPadDoc.lmode_after EditPadDefs.LStart p <> EditPadDefs.LVal ->
+    (x1 ++ x2 = [] \/ exists u, tstr ws = u ++ [32]) ->
+    EditAnalysis.crlf_blind yaml_ok -> EditAnalysis.crlf_blind yaml -> EditTrailDoc.iq_ok x find_iq ->
+    EditTextTrailDoc.same_parse_wN ac U cfg ci_key yaml_ok find_iq unit_class x Y ystr yeqb yaml
+      s (take_bytes s (cook_off fm) ++ a ++ (x1 ++ block_comment_text c ++ x2) ++ b).
+Proof.
+  intros ac cfg. intros.
+  apply (EditTextPadDoc.pad_text_mode_fm U cfg gen_special_breaks gen_eol_breaks gen_blank_ws ac) with (fm := fm) (p := p) (wd := wd) (ws := ws) (tb' := tb') (d := d) (y := y); assumption.
+Qed.
+Print Assumptions C17_padded_comment_recipe_text_mode_fm.
+
+(* ">> [mode]: text\nAdd @sea " | "salt{} and stir" with "[- c -] " after the blank that is there: the
+   paragraphs are "Add @sea salt{} and stir" and "Add @sea  salt{} and stir" *)
+Definition pm_a : str := [62;62;32;91;109;111;100;101;93;58;32;116;101;120;116;10] ++ pd_a.
+
+Example C17_padded_text_mode_hypotheses_satisfiable :
+  exists p wd ws tb' d y,
+    lex_at U pm_a 0 = Some (p ++ [wd; ws]) /\ pd_b = d :: y /\ is_lex_ws U d = false /\ lex_at U pd_b (blen pm_a) = Some tb'
+    /\ is_single_word_tok (kind wd) = true /\ kind ws = KWs /\ mode_after MOut p = MOut
+    /\ EditPadDoc.lmode_after EditPadDefs.LStart p <> EditPadDefs.LVal
+    /\ (exists u, tstr ws = u ++ [32])
+    /\ parse_frontmatter cfg_all (pm_a ++ pd_b) = None
+    /\ parse_frontmatter cfg_all (pm_a ++ ([] ++ block_comment_text pd_c ++ [32]) ++ pd_b) = None
+    /\ EditAnalysis.src_no_text_mode_b U cfg_all (pm_a ++ pd_b) = false.
+Proof.
+  eexists (firstn 12 (match lex_at U pm_a 0 with Some t => t | None => [] end)), _, _, _, _, _.
+  split; [vm_compute; reflexivity|]. split; [reflexivity|]. split; [vm_compute; reflexivity|].
+  split; [vm_compute; reflexivity|]. split; [reflexivity|]. split; [reflexivity|]. split; [vm_compute; reflexivity|].
+  split; [vm_compute; discriminate|]. split; [exists []; reflexivity|].
+  split; [vm_compute; reflexivity|]. split; [vm_compute; reflexivity|]. vm_compute. reflexivity.
+Qed.
+
+Example C17_padded_text_mode_instance :
+  forall ci_key yaml_ok unit_class,
+    EditTextTrailDoc.orelwN
+      (ParseTotal.parse_model U cfg_all ci_key yaml_ok (fun _ => None) unit_class x_all (pm_a ++ pd_b))
+      (ParseTotal.parse_model U cfg_all ci_key yaml_ok (fun _ => None) unit_class x_all (pm_a ++ ([] ++ block_comment_text pd_c ++ [32]) ++ pd_b)).
+Proof. intros. vm_compute. split; reflexivity. Qed.
